@@ -16,7 +16,7 @@ pub enum SMode { P, C, R }
 #[derive(Clone, Debug)]
 pub enum SAct
 {
-    Spawn, SpawnSys(usize), On(SMode, usize, Vec<STrig>), With(SMode, Ref, Vec<STrig>), Once(usize, Vec<STrig>),
+    Spawn, SpawnSys(usize), On(SMode, usize, Vec<STrig>), With(SMode, Ref, Vec<STrig>), Once(usize, Vec<STrig>), OnceFn(usize, Vec<STrig>),
     Revoke(usize), Run(Ref), SysEvent(Ref, usize, u32), Broadcast(usize, u32), EntityEvent(Ref, usize, u32),
     ResMut(usize), ResSet(usize, u32, bool), ResRead(usize), Insert(Ref, usize, u32), Mutate(Ref, usize, u32), MutNr(Ref, usize, u32), ResNr(usize, u32),
     SetNeq(Ref, usize, u32), ReadComp(Ref, usize), Remove(Ref, usize), Despawn(Ref), DespawnRec(Ref),
@@ -89,6 +89,7 @@ fn parse_act(t: &[&str]) -> Option<SAct>
         ["on", m, d, ts @ ..] => SAct::On(parse_mode(m)?, num(d)?, parse_trigs(ts)?),
         ["with", m, s, ts @ ..] => SAct::With(parse_mode(m)?, parse_ref(s)?, parse_trigs(ts)?),
         ["once", d, ts @ ..] => SAct::Once(num(d)?, parse_trigs(ts)?),
+        ["oncefn", d, ts @ ..] => SAct::OnceFn(num(d)?, parse_trigs(ts)?),
         ["revoke", k] => SAct::Revoke(parse_idx('t', k)?),
         ["run", s] => SAct::Run(parse_ref(s)?),
         ["flush"] => SAct::Flush,
